@@ -105,6 +105,17 @@ register(
     "DESIGN.md §3 C02",
 )
 
+register(
+    "C17",
+    "bounded-exhaustive product grid (mass/damping/stiffness forms incl. singular mass x step ladder x forces x ICs x rf partitions x nonlinear-term definitions; CDF layouts x order x ICs) against independent transcriptions of the documented recurrences; step-halving ladders against the exact solution; boundedness over 200 steps",
+    "Every form/option combination is executed and compared at round-off with a from-the-docstring implementation of "
+    "the Newmark-Beta recurrence (start-up, 1/3 force average, extrapolated last step, central differences, nonlinear "
+    "terms) and of the coupled-damping-force recurrence (with per-mode coefficients from mpmath, not get_su_coef); "
+    "convergence order and boundedness are decided on finite ladders.",
+    "Trusted: the transcriptions ref_newmark/ref_cdf in vf/checks/c17.py; 3-DOF systems; ladder of 5 step sizes.",
+    "DESIGN.md §3 C17",
+)
+
 
 def build():
     checks = []
